@@ -57,6 +57,10 @@ func VF_C03_chunks() {
 	s := vfString("s")
 	vfAssume(vfRuneLen(s) <= vfBound("chunks.len", 4, 6))
 	got, err := NewChunker().Chunks(s)
+	vfObserve("chunks", strings.Join(got, "\x1f"))
+	if err != nil {
+		vfObserve("err", err.Error())
+	}
 	want, bad := refChunks(s)
 	vfAssert(bad == (err != nil), "Chunks errors iff a % is unpaired")
 	if !bad && err == nil {
@@ -176,6 +180,10 @@ func VF_C03_kind() {
 	vfAssume(vfInRe(c, `\A([^%]*|%[^%]*%)\z`))
 
 	tok, err := vfFactory(u).Create(c)
+	vfObserve("code", tok.Code)
+	if err != nil {
+		vfObserve("err", err.Error())
+	}
 	kind, name, args := refKind(c, []string{"env", "envInt", "todo", u})
 
 	switch kind {
@@ -238,6 +246,7 @@ func VF_C03_gocode() {
 		tk = append(tk, Token{Code: vfString("code")})
 	}
 	code, err := tk.GoCode()
+	vfObserve("gocode", code)
 	if n == 0 {
 		vfAssert(err != nil, "empty token list is an error")
 		vfReach("C03_gocode")
@@ -308,6 +317,12 @@ func VF_C03_tokenize() {
 	vfAssume(vfRuneLen(s) <= vfBound("tokenize.len", 4, 6))
 	tz := NewTokenizer(NewChunker(), vfFactory(""))
 	tks, err := tz.Tokenize(s)
+	for _, t := range tks {
+		vfObserve("token", t.Code)
+	}
+	if err != nil {
+		vfObserve("err", err.Error())
+	}
 	want, bad := refChunks(s)
 	if bad {
 		vfAssert(err != nil, "unbalanced % is rejected")
